@@ -218,6 +218,72 @@ fn multiplicity(def: &ProgramDef, rels: &[Vec<Row>], facts: &Facts, ctx: &str) -
    None
 }
 
+fn rows_pushed_between(actor: &Actor, from: usize, to: usize) -> Facts {
+   actor.ops[from + 1..to]
+      .iter()
+      .filter_map(|op| if let Op::Push { rel, rows } = op { Some((rel.clone(), rows.clone())) } else { None })
+      .collect()
+}
+
+/// C05 for a later evaluation of a program value: `before` = the rows the previous evaluation left,
+/// `pushed` = what the caller appended since. The evaluation must keep every row it found, must not
+/// add a copy of a tuple it found (however many copies the caller made of it), and may add any other
+/// tuple once; a lattice key it found keeps its number of rows, a new key gets one row.
+fn multiplicity_step(def: &ProgramDef, before: &[Vec<Row>], pushed: &Facts, after: &[Vec<Row>], ctx: &str) -> Option<Violation> {
+   for ((meta, b), a) in def.rels.iter().zip(before).zip(after) {
+      if !meta.io {
+         continue;
+      }
+      let mut start: Vec<Row> = b.clone();
+      start.extend(pushed.iter().filter(|(n, _)| n == meta.name).flat_map(|(_, rs)| rs.iter().cloned()));
+      if meta.lattice {
+         let k = meta.arity - 1;
+         let leq = meta.lat_leq.unwrap();
+         let mut was: BTreeMap<&[vcorpus::Val], Vec<&Row>> = BTreeMap::new();
+         for r in start.iter() {
+            was.entry(&r[..k]).or_default().push(r);
+         }
+         let mut is: BTreeMap<&[vcorpus::Val], Vec<&Row>> = BTreeMap::new();
+         for r in a.iter() {
+            is.entry(&r[..k]).or_default().push(r);
+         }
+         for (key, rs) in is.iter() {
+            let allowed = was.get(key).map_or(1, |v| v.len());
+            if rs.len() > allowed {
+               return vr("duplicate-key", meta.name, format!("{}: lattice {} holds {} rows for the key of {} (it had {} before this evaluation)", ctx, meta.name, rs.len(), short(rs[0]), was.get(key).map_or(0, |v| v.len())));
+            }
+         }
+         for (key, rs) in was.iter() {
+            match is.get(key) {
+               None => return vr("lost-input", meta.name, format!("{}: lattice {} lost the key of {}", ctx, meta.name, short(rs[0]))),
+               Some(now) =>
+                  for r in rs.iter() {
+                     if !now.iter().any(|o| leq(&r[k], &o[k])) {
+                        return vr("lost-input", meta.name, format!("{}: lattice {} row {} is no longer below the stored value", ctx, meta.name, short(r)));
+                     }
+                  },
+            }
+         }
+      } else {
+         let was = multiset(&start);
+         let is = multiset(a);
+         for (t, n) in was.iter() {
+            let o = is.get(*t).cloned().unwrap_or(0);
+            if o < *n {
+               return vr("lost-input", meta.name, format!("{}: relation {} lost tuple {} ({} of {} left)", ctx, meta.name, short(t), o, n));
+            }
+         }
+         for (t, o) in is.iter() {
+            let allowed = was.get(*t).cloned().unwrap_or(1);
+            if *o > allowed {
+               return vr("duplicate-row", meta.name, format!("{}: relation {} holds {} copies of {} (it held {} before this evaluation)", ctx, meta.name, o, short(t), was.get(*t).cloned().unwrap_or(0)));
+            }
+         }
+      }
+   }
+   None
+}
+
 fn same_as_sets(def: &ProgramDef, a: &[Vec<Row>], b: &[Vec<Row>], ctx: &str) -> Option<Violation> {
    let mut first = same_as_sets_first(def, a, b, ctx)?;
    first.rels = def
@@ -313,10 +379,18 @@ fn judge_inner(case: &Case, obs: &Observation) -> Option<Violation> {
          let ctx = format!("actor {} op {}", ai, s.op);
          let complete = s.ret != Some(false);
          match check {
-            "C05" =>
-               if let Some(x) = multiplicity(def, &s.rels, &facts, &ctx) {
+            "C05" => {
+               let r = match prev {
+                  // a later evaluation of the same program value: judged against the state it started
+                  // from (what the previous evaluation left, plus what the caller pushed since)
+                  Some(p) if !actor.ops[p.op + 1..s.op].iter().any(|o| matches!(o, Op::New { .. })) =>
+                     multiplicity_step(def, &p.rels, &rows_pushed_between(actor, p.op, s.op), &s.rels, &ctx),
+                  _ => multiplicity(def, &s.rels, &facts, &ctx),
+               };
+               if let Some(x) = r {
                   return Some(x);
-               },
+               }
+            },
             "C02" | "C10" =>
                if let Some(x) = equal_to_reference(def, &s.rels, &reference(def, &facts), &ctx) {
                   return Some(x);
@@ -330,6 +404,25 @@ fn judge_inner(case: &Case, obs: &Observation) -> Option<Violation> {
                         x.class = "differs-from-solo".into();
                         x.detail = x.detail.replace("changed by a run() without new facts", "differs from the same instance run alone in the default pool");
                         return Some(x);
+                     }
+                     // "exactly what it computes when run alone": also the same number of rows per tuple
+                     // (alone, a tuple has one row beyond the copies the caller pushed; C05)
+                     for ((meta, a), b) in def.rels.iter().zip(alone.rels.iter()).zip(s.rels.iter()) {
+                        if meta.io && !meta.lattice && a.len() != b.len() {
+                           let (ma, mb) = (multiset(a), multiset(b));
+                           if let Some((t, n)) = mb.iter().find(|(t, n)| ma.get(**t) != Some(*n)) {
+                              let mut x = Violation {
+                                 class: "differs-from-solo".into(),
+                                 detail: format!("{}: relation {} holds {} rows for {} but {} when the same instance runs alone in the default pool", ctx, meta.name, n, short(t), ma.get(*t).cloned().unwrap_or(0)),
+                                 rel: Some(meta.name.to_string()),
+                                 rels: vec![meta.name.to_string()],
+                                 actor: None,
+                                 op: None,
+                              };
+                              x.rels.dedup();
+                              return Some(x);
+                           }
+                        }
                      }
                   },
                   None => {}, // the solo run itself failed: not a statement about isolation
